@@ -168,7 +168,7 @@ Definition session_lines (file : list line) (dps : list newdp) : list line :=
   w_out (fold_left (write_dp (match file with [] => true | _ => false end))
                    dps {| w_benches := benches s; w_runs := runs s; w_opened := false; w_out := [] |}).
 
-(** -r: every line is kept except the measurements of the selected runs (by run key) *)
+(** -r: every line is kept (also one that cannot be read) except the measurements of the selected runs (by run key) *)
 Fixpoint rewrite_from (sel : nat -> bool) (rs : list nat) (f : list line) : list line :=
   match f with
   | [] => []
@@ -180,7 +180,6 @@ Fixpoint rewrite_from (sel : nat -> bool) (rs : list nat) (f : list line) : list
           | None => l :: rewrite_from sel rs r
           end
       | LRun id bid key => l :: rewrite_from sel (rs ++ [key]) r
-      | LGarbage => rewrite_from sel rs r      (* a line that does not parse is not copied *)
       | _ => l :: rewrite_from sel rs r
       end
   end.
